@@ -7,6 +7,13 @@
  * B3: the robustness corpus (repository texts, mutations, random UTF-8, nesting) is lexed; a stride
    sample of the recorded token streams / tables is validated by TLC against LexTrace.tla, whose
    clauses are the statement of C14 (the same predicates the harness evaluates natively).
+ * Machine spec: Lexer.tla transcribes Cursor::advance_token and every scanner.  TLC (MCLexer) visits
+   every text over five alphabets / chunk sets up to a chunk bound, proves the C14 clauses (and three
+   design facts) on the model's token stream in every state, and exports every state as a case; the
+   harness replays each case through oq3_lexer::tokenize and LexedStr (B1): the real stream must be
+   the model's (kind, length, flags, suffix offset) - a difference is model drift - and the C14
+   clauses are evaluated on the real stream (violation).  B3: token streams recorded from corpus /
+   mutated / random texts are validated by TLC against the same machine spec (LexerTrace.tla).
 """
 import json, os, sys
 sys.path.insert(0, os.path.join(os.path.dirname(os.path.abspath(__file__)), "..", "tools"))
@@ -18,6 +25,60 @@ ALPHABETS = {
     "B": ["\"", "'", "\\", "\n", "_", "0", "1", "2", "/", "*", "a", " ", "%%00E9;", "%%0000;"],
     "C": ["O", "P", "#", "p", "r", "d", "@", "$", "3", ".", ";", " ", "\n", "%%1F600;"],
 }
+
+
+def lexer_model(c, texts, cp):
+    """MCLexer (M |= C14 on every text up to the bound) + B1 replay + B3 validation against Lexer.tla."""
+    fam = []; mstates = 0; ndrift = 0
+    for a in "ABCDE":
+        cfg = f"MCLexer_{a}.cfg" if c.quick else f"MCLexer_{a}_thorough.cfg"
+        r = run_tlc("lexer", "MCLexer", cfg, workers=8, timeout=3000, cache_key="v1", keep_tags=["CASE"], xmx="16g")
+        if not r.ok:
+            c.tool_error(f"MCLexer {cfg}: {r.violated or r.error_text} {r.raw_tail[-600:]}")
+        cases = r.tagged.get("CASE", [])
+        cf = os.path.join(c.work, f"mclex_{a}.json"); of = os.path.join(c.work, f"mclex_{a}_out.json")
+        json.dump(cases, open(cf, "w"))
+        p = run_harness(["lexm-cases", cf, of], timeout=3000)
+        if p.returncode != 0:
+            c.tool_error("lexm-cases failed: " + p.stderr[-1500:])
+        d = json.load(open(of))
+        mstates += r.distinct
+        fam.append({"chunks": a, "cfg": cfg, "states": r.distinct, "cases": d["cases"], "texts_replayed": d["texts"], "kinds_seen": d["kinds"]})
+        for f in d["failures"]:
+            if f["kind"] == "model_mismatch":
+                ndrift += 1
+                if len(c.drift) < 5:
+                    c.drift.append({k: f[k] for k in ("text", "at", "model", "real")})
+            elif f["kind"] == "harness":
+                c.tool_error("lexm-cases: " + json.dumps(f)[:400])
+            else:
+                site = (f.get("panic") or {}).get("func", "")
+                c.report({"kind": f["kind"], "what": f["what"], "text": f["text"], "site": site, "panic": f.get("panic"), "via": "MCLexer case"})
+    # B3: recorded streams against the machine spec
+    ev = os.path.join(c.work, "lexm.ndjson")
+    nm, nr = (400, 400) if c.quick else (6000, 6000)
+    p = run_harness(["lexm-record", c.seed, cp, nm, nr, ev], timeout=3000)
+    if p.returncode != 0:
+        c.tool_error("lexm-record failed: " + p.stderr[-1500:])
+    nrec = json.loads(p.stdout.strip().splitlines()[-1])["recorded"]
+    tr = run_tlc("lexer", "LexerTrace", "LexerTrace.cfg", workers=1, timeout=3000, dfs=True, xss="1g", env={"TRACE": ev})
+    rej = tr.tagged.get("REJECT")
+    if rej:
+        line = rej[0]["line"]
+        evs = open(ev).read().split("\n")
+        e = json.loads(evs[line - 1]) if line - 1 < len(evs) else {}
+        if e.get("ev") == "panic":
+            c.report({"kind": "panic", "what": "tokenize panicked", "text": e.get("text"), "panic": e.get("panic"), "site": (e.get("panic") or {}).get("func", "")})
+        else:
+            ndrift += 1
+            c.drift.append({"text": e.get("text"), "diff": rej[0].get("diff"), "via": "LexerTrace"})
+    elif not tr.ok:
+        c.tool_error(f"LexerTrace validation did not complete: {tr.error_text} {tr.raw_tail[-600:]}")
+    if ndrift:
+        c.notes.append(f"model drift: {ndrift} texts on which oq3_lexer's stream is not the machine spec's (Lexer.tla); the C14 verdict is unaffected - the partition clauses are evaluated on the real stream")
+    c.cov["lexer_machine_spec"] = {"families": fam, "trace_events_validated": tr.distinct - 1 if tr.ok else 0, "trace_events_recorded": nrec, "drift_texts": ndrift}
+    c.cov["_mstates"] = mstates + tr.distinct
+    c.assumptions.append("MCLexer: texts over 5 chunk sets (16-20 chunks each), at most 4 chunks (thorough: 5); Unicode classes are represented by 4-5 characters each")
 
 
 def main():
@@ -60,7 +121,8 @@ def main():
                   "event": json.loads(evs[line - 1]) if line - 1 < len(evs) else None})
     elif not tr.ok:
         c.tool_error(f"LexTrace validation did not complete: {tr.error_text} {tr.raw_tail[-600:]}")
-    c.cov.update({"states": tr.distinct, "transitions": tr.generated, "traces_validated_against_impl": d["recorded"],
+    lexer_model(c, texts, cp)
+    c.cov.update({"states": tr.distinct + c.cov.pop("_mstates", 0), "transitions": tr.generated, "traces_validated_against_impl": d["recorded"],
                   "exhaustive": True, "strings_exhaustive": total, "corpus_texts": len(texts), "robustness_inputs": d["inputs"],
                   "max_input_len": d["max_len"]})
     for s in d["samples"][:3]:
